@@ -104,6 +104,13 @@ CLAIMED = {
    "(b) per-dialect feature-rich schemas plus an `alltypes` table over the formatted grid types (random null/default/comment) are marshalled with MarshalHCL, evaluated with EvalHCLBytes, diffed in both directions (DiffNormalized: must be empty) and marshalled again (bytes must be identical).",
    "Schema graphs are built with the exported builder API from ParseType'd types (the form an inspector yields), not inspected from servers. MySQL table-level AUTO_INCREMENT start values are excluded (not exported by design); charset/collation are not generated (need a live server for defaults).",
    "4/C15"),
+ "C10": ("fault_enumeration",
+   "exhaustive crash-point enumeration on the real CLI binary (process killed at every instrumented point), invariants over journal rows and revision rows read by an independent SQLite client, then re-run",
+   "The atlas binary is built with -tags verif; for every configuration (directory shape x tx-mode file/all/none x per-file txmode directives) a probe run records the sequence of instrumented points reached (before/after every statement, before/after every revision write, before/after commit) "
+   "and the process is then exited (status 137, no deferred code, no rollback) at each point index in turn on a fresh SQLite file; the same command is run again. Checked right after the crash: no revision row claims a statement whose journal row is absent; in file/all modes no file is half applied; "
+   "in all mode nothing is visible unless the crash came after the commit. Checked after the re-run: exit 0, every statement's row exists exactly once (none mode: only the statement in flight at the crash may exist twice), all revisions complete.",
+   "Crash points are the instrumented ones; a crash inside SQLite's own commit is SQLite's guarantee. The init statement is CREATE TABLE IF NOT EXISTS so that re-executing the in-flight statement in none mode is possible at all. The stale advisory lock file a killed process leaves in TMPDIR is removed before the re-run (lock handling is not part of the property).",
+   "4/C10"),
 }
 PENDING_REASON = "check not built yet in this session (planned in DESIGN.md section 4; will be claimed once its quick check is green and sensitivity-tested)"
 
